@@ -30,14 +30,7 @@ Theorem C04_checked_output_sound : forall cands p winner out,
       holds cands p a = true /\ tally_w p a = tw /\ tally_l p a = tl /\ tl < tw)
   /\ sufficient cands winner (map rep_assertion out)
   /\ (forall pi, complete_order cands pi -> valid_order p pi -> ends_in_other winner pi = false).
-Proof.
-  intros cands p winner out Hnd H.
-  destruct (check_output_sound cands p winner out Hnd H) as [H1 H2].
-  split; [exact H1|]. split; [exact H2|].
-  apply (sufficient_true_forces_winner cands p winner (map rep_assertion out)); [|exact H2].
-  intros a Ha. apply in_map_iff in Ha. destruct Ha as [[[a' tw] tl] [He Hin]]. unfold rep_assertion in He. simpl in He. subst a.
-  apply (H1 a' tw tl Hin).
-Qed.
+Proof. exact checked_output_sound_full. Qed.
 Print Assumptions C04_checked_output_sound.
 
 Theorem C04_possible_iff : forall cands p winner,
@@ -56,13 +49,7 @@ Theorem C04_in_particular : forall cands p winner,
   (* and a sufficient set of true assertions forces every valid count to elect the reported winner *)
   /\ (forall S, true_set cands p S -> sufficient cands winner S ->
         forall pi, complete_order cands pi -> valid_order p pi -> ends_in_other winner pi = false).
-Proof.
-  intros cands p winner Hnd. split; [|split].
-  - intros a pi Hp Hv Hh. apply (true_never_contradicts_valid cands p a pi); auto.
-    intros c Hc. eapply Permutation_in; eauto.
-  - intros pi Hp Hv He. eapply other_winner_not_possible; eauto.
-  - intros S Ht Hs. apply (sufficient_true_forces_winner cands p winner S Ht Hs).
-Qed.
+Proof. exact in_particular. Qed.
 Print Assumptions C04_in_particular.
 
 (* ---- non-vacuity: concrete inputs satisfying the hypotheses *)
